@@ -30,6 +30,43 @@ EXTRA = ["0, (label $a | 1, (label $b | 2, break $a, 3), 4)", "[label $a | (1, 2
          "[ltrimstr(\"a\"), rtrimstr(\"b\")]", "[limit(3; .. )]", "getpath([\"a\", 0])?", "tostring | explode | implode", "(tojson | length) as $n | [range($n)] | length", "now | type", "input? // \"none\""]
 
 
+# values are immutable shared data as well: what a filter yields must not depend on who else holds its input or its operands
+SHARE = ["@F", ". as $keep | @F", "[[@F], [@F]] | .[1][]", "[@F] as $r | [$r, [@F]] | .[1][]", "[., .] | .[1] | @F", "{a: ., b: .} | .b | @F"]
+ARITH = [".[0] - (.[1] + 0)", "(.[0] + 0) - .[1]", ".[0] + (.[1] * 1)", "(.[0] * 1) * (.[1] + 0)", ".[0] - .[1]", "(.[0] + 0) - (.[1] + 0)", "-(.[0] + 0)",
+         "(.[0] + 1) % (.[1] + 0)", "[.[] | . + 1] | .[0] - .[1]", ".[0] as $a | .[1] as $b | $a - ($b + 0)", "(.[1] + 0) as $b | .[0] - $b",
+         ".[0] |= . + 1", ".[1] -= 1", "[.[0], .[0]] | .[0] += 1", ". + [.[0] + 0] | .[2] - .[0]", "(.[2]? // \"ab\") + \"c\"", "map(tostring) | .[0] + .[1]",
+         ".[0:1] + .[1:]", "(.[0:1] + [0]) | .[1] = 5", "to_entries | map(.value) | .[0] - (.[1] + 0)"]
+
+
+def gen(ctx):
+    rng, tier = ctx["rng"], ctx["tier"]
+    g = Gen(rng, max_depth=4)
+    big = [from_json([10 ** 20, 10 ** 20 + 1]), from_json([2 ** 64, 2 ** 63]), from_json([-10 ** 25, 3]), from_json([2 ** 70 + 1, 2 ** 70]), from_json([5, 7]),
+           A(B(3), B(5)), A(B(10 ** 30), I(1)), from_json([9223372036854775807, 9223372036854775807])]
+    cases = []
+    for f in ARITH:
+        for inp in big:
+            cases.append(dict(filter="[" + ", ".join("[%s]" % w.replace("@F", "(" + f + ")") for w in SHARE) + "]", inputs=[inp], kind="sharing-arith"))
+    inputs = [from_json(__import__("json").loads(s)) for s in c01.INPUTS_SRC]
+    for _ in range(150 if tier == "quick" else 3000):
+        f = g.term(Scope(), rng.choice([2, 3, 4]))
+        if "input" in f or "now" in f or "$__loc__" in f:
+            continue
+        cases.append(dict(filter="[" + ", ".join("[%s]" % w.replace("@F", "(" + f + ")") for w in SHARE[:4]) + "]", inputs=[rng.choice(inputs + big)], kind="sharing-random"))
+    return cases
+
+
+def oracle(c, impl, model=None):
+    if isinstance(impl, list) and impl and impl[0] in ("panic", "crash"):
+        return ("panic:" + c["kind"], "panicked: " + sx.dumps(impl)[:200])
+    if not (isinstance(impl, list) and impl and impl[0] == "out" and impl[2] == "end" and len(impl[1]) == 1):
+        return None
+    out = impl[1][0]
+    if any(x != out[1] for x in out[2:]):
+        return ("sharing", "the outputs of a filter depend on who else holds its input or operands: %s gives %s" % (c["filter"][:200], sx.dumps(out)[:300]))
+    return None
+
+
 def custom(ctx):
     rng, tier = ctx["rng"], ctx["tier"]
     stats = {}
